@@ -65,7 +65,7 @@ PROPS = {
    'must_reach': ['segment_purge_by_time'],
  },
  'C03': {
-   'families': [('c03_align', 1, ALLU)],
+   'families': [('c03_align', 3, ALLU), ('c03_pagelife', 1, ALLU)],
    'runs': {'quick': 2400, 'thorough': 150000},
    'rule': 'each run executes 6-30 (size, alignment, offset) triples against warmed-up heap states, each followed by expand / realloc(_aligned(_at)) / free variants; non-trivial = at least 5 aligned allocations succeeded and one was resized; distinct = distinct API result hash',
    'nontrivial': lambda r: r.get('allocs', 0) >= 5 and r.get('reallocs', 0) >= 1,
